@@ -553,3 +553,102 @@ func cliSchedWorkload(count map[string]int) *Workload {
 		ShrinkEvals: 200,
 	}
 }
+
+// ---------------------------------------------------------------- C14: several root selectors
+//
+// "-r selectors are processed in the order given", each for each document: for
+// a single document and a program that keeps no state between roots, the run
+// with -r A -r B must print what the run with -r A prints followed by what the
+// run with -r B prints -- also when the program changes what A selected.
+
+type SelSumCase struct {
+	Prog string `json:"prog"`
+	Doc  QBytes `json:"doc"`
+	A    string `json:"a"`
+	B    string `json:"b"`
+	ViaF bool   `json:"via_f"`
+}
+
+var selSumProgs = []string{
+	"BEGINFILE { print \"bf\", $ }\n{ print \"e\", $ }\nENDFILE { print \"ef\" }\n",
+	"{ if ($ is object) { $.seen = 1 }\n print $ }\n",
+	"BEGINFILE { if ($ is array) { $.push(99)\n $[0] = \"w\" }\n print $ }\n",
+	"BEGINFILE { if ($ is array) { print $.pop(), $.length() } else { print \"-\" } }\n{ print $ }\n",
+	"{ if ($ is number) { $ = $ * 10 }\n print $ }\n",
+	"{ if ($ is object) { $.id = $.id * 10\n print $.id } else { print $ } }\n",
+	"BEGINFILE { if ($ is object) { $.items[0] = \"first\"\n $.a = [] }\n print $ }\n",
+	"BEGINFILE { if ($ is array) { $.popfirst() } }\n{ print $ }\n",
+	"{ $ = \"gone\" }\nENDFILE { print \"ef\" }\n",
+}
+var selSumSelectors = []string{"$", "$.items", "$.a", "$.b", "$.items", "$.items[0]", "$.a[0]", "$.id", "$.zz"}
+
+func runSelSum(c *SelSumCase, keep bool) Outcome {
+	log := newEventLog(keep)
+	o := Outcome{Probes: map[string]int{}, Nontrivial: true}
+	finish := func() Outcome {
+		o.LogHash, o.Log, o.Steps = log.Hash(), log.lines, log.seq
+		return o
+	}
+	if jqawkBin() == "" {
+		o.Class, o.Msg = "harness", "SIM_JQAWK not set"
+		return finish()
+	}
+	run := func(sel []string) (procResult, error) {
+		pc := &ProcCase{Prog: c.Prog, ViaF: c.ViaF, Selectors: sel, Inputs: []ProcFile{{Name: "doc.json", Data: c.Doc, Kind: "regular"}}}
+		return runBinary(pc, "")
+	}
+	both, err := run([]string{c.A, c.B})
+	if err != nil {
+		o.Class, o.Msg = "harness", err.Error()
+		return finish()
+	}
+	ra, err := run([]string{c.A})
+	if err != nil {
+		o.Class, o.Msg = "harness", err.Error()
+		return finish()
+	}
+	rb, err := run([]string{c.B})
+	if err != nil {
+		o.Class, o.Msg = "harness", err.Error()
+		return finish()
+	}
+	log.add('P', 0, "EXEC both=%d a=%d b=%d", both.exit, ra.exit, rb.exit)
+	o.Shape = fmt.Sprintf("selsum|%s|%s|%x", c.A, c.B, hashStr(c.Prog))
+	for _, r := range []procResult{both, ra, rb} {
+		if r.signaled || crashSignature(r.stderr) {
+			o.Class, o.Msg = "process-crash", truncate(r.stderr, 400)
+			return finish()
+		}
+	}
+	if ra.exit != 0 || rb.exit != 0 {
+		// a failing selector or rule: the combined run must fail too; how far it got is not compared
+		if both.exit == 0 {
+			o.Class, o.Msg = "exit-0-on-error", fmt.Sprintf("-r %s alone exits %d, -r %s alone exits %d, both together exit 0", c.A, ra.exit, c.B, rb.exit)
+		}
+		return finish()
+	}
+	o.Probes["selector_sums_compared"]++
+	if both.exit != 0 || both.stdout != ra.stdout+rb.stdout {
+		o.Class = "relation-selector-sum"
+		o.Msg = fmt.Sprintf("-r %s -r %s (exit %d) does not print what -r %s prints followed by what -r %s prints\n--- together ---\n%s\n--- first alone ---\n%s\n--- second alone ---\n%s", c.A, c.B, both.exit, c.A, c.B, truncate(both.stdout, 500), truncate(ra.stdout, 400), truncate(rb.stdout, 400))
+	}
+	return finish()
+}
+
+func selSumWorkload(count map[string]int) *Workload {
+	return &Workload{
+		Name:  "selector-sum",
+		Count: func(tier string) int { return count[tier] },
+		Gen: func(i int, t *Tape, tier string) any {
+			g := &streamGen{t: t, profile: 3, rich: true}
+			doc := g.objectText(true)
+			if t.Chance(1, 4) {
+				doc = g.arrayText(true)
+			}
+			return &SelSumCase{Prog: selSumProgs[t.Draw(len(selSumProgs))], Doc: QBytes(doc), A: selSumSelectors[t.Draw(len(selSumSelectors))], B: selSumSelectors[t.Draw(len(selSumSelectors))], ViaF: t.Chance(1, 4)}
+		},
+		Run:         func(c any, keep bool) Outcome { return runSelSum(c.(*SelSumCase), keep) },
+		New:         func() any { return &SelSumCase{} },
+		ShrinkEvals: 100,
+	}
+}
